@@ -19,11 +19,21 @@ impl<T> It<T> {
     pub fn vcorr_pearson(self, other: It<T>, min_periods: usize) -> (r: f64)
         ensures
             r == acorr(self.seq(), shifted_by(other.seq(), self.seq()), min_periods),
-            // ASSUMED from C13 (a lag >= len leaves only nulls) + C11 (no valid pair => null): the only fact used about the oracle
-            shifted_by(other.seq(), self.seq()) >= self.seq().len() ==> nan(r),
     { unimplemented!() }
 }
 pub uninterp spec fn shifted_by<T>(r: Seq<T>, x: Seq<T>) -> int;
+// ASSUMED from C13 (a lag >= len leaves only nulls) + C11 (no valid pair => null): the only fact used about the oracle
+pub broadcast axiom fn ax_acorr_beyond<T>(x: Seq<T>, lag: int, mp: usize)
+    requires lag >= x.len(),
+    ensures nan(#[trigger] acorr(x, lag, mp));
+// "the lagged autocorrelation is above 0.5" as the code tests it (an undefined correlation is not above)
+pub open spec fn above<T>(x: Seq<T>, lag: int, mp: usize) -> bool { !nan(acorr(x, lag, mp)) && rv(acorr(x, lag, mp)) * 2real > 1real }
+// the autocorrelation stays above 0.5 exactly up to lag L
+pub open spec fn above_up_to<T>(x: Seq<T>, mp: usize, l: int) -> bool {
+    l >= 0 && forall|lag: int| 1 <= lag ==> (#[trigger] above(x, lag, mp) <==> lag <= l)
+}
+pub open spec fn mp_hl(mp: Option<usize>, len: nat) -> usize { match mp { Some(m) => m, None => (len / 2) as usize } }
+pub axiom fn ax_lits() ensures rv(0.5f64) * 2real == 1real, !nan(0.5f64);
 
 proof fn lemma_pow2_mono(a: nat, b: nat)
     requires a <= b,
@@ -43,26 +53,37 @@ proof fn lemma_pow2_62() ensures ipow(2, 62) == 0x4000_0000_0000_0000int
 }
 
 //@fn name=half_life crate=tevec ctx="pub trait AggValidFinal" props=C20 arith=C20
-//@sig fn half_life<V: TIter<T>, T>(this: &V, min_periods: Option<usize>) -> (res: usize)
+//@sig fn half_life<V: TIter<T>, T>(this: &V, min_periods: Option<usize>, Ghost(__gl): Ghost<int>) -> (res: usize)
 //@spec
     requires
         this.view().len() <= 0x4000_0000,      // A-LEN: lags are passed to vshift as i32
     ensures
         this.view().len() < 2 ==> res == 0,                                  // #C20 short_series_zero
         this.view().len() >= 2 ==> 1 <= res <= this.view().len() - 1,        // #C20 lag_in_range
+        // for a series whose autocorrelation stays above 0.5 exactly up to lag L: the first lag at which it is not, capped at len-1
+        (this.view().len() >= 2 && above_up_to(this.view(), mp_hl(min_periods, this.view().len()), __gl))
+            ==> res as int == (if __gl + 1 <= this.view().len() - 1 { __gl + 1 } else { this.view().len() - 1 }),      // #C20 first_lag_not_above_half
+//@at body first
+    let ghost mono = above_up_to(this.view(), mp_hl(min_periods, this.view().len()), __gl);
+    let ghost x = this.view();
+    let ghost mpe = mp_hl(min_periods, this.view().len());
+    proof { ax_lits(); broadcast use a_real_cmp, ax_acorr_beyond; if mono { assert(!above(x, x.len() as int, mpe)); } }
 //@loop 1
     invariant_except_break
-        len == this.view().len(), 1 <= len <= 0x4000_0000,
+        len == this.view().len(), 1 <= len <= 0x4000_0000, x == this.view(), min_periods == mpe,
         i <= 32,
-        (i == 0 && n == 0) || (i >= 1 && n == ipow(2, (i - 1) as nat) && n < len),
+        (i == 0 && n == 0) || (i >= 1 && n == ipow(2, (i - 1) as nat) && n < len && above(x, n as int, mpe)),
         last_n == n,
     ensures
-        len == this.view().len(), 1 <= len <= 0x4000_0000,
+        len == this.view().len(), 1 <= len <= 0x4000_0000, x == this.view(), min_periods == mpe,
         last_n <= n, n >= 1, last_n < len,
+        last_n == 0 || above(x, last_n as int, mpe),
+        !above(x, n as int, mpe),
     decreases 64 - i
 //@at loop 1 first
     proof {
-        broadcast use a_real_cmp;
+        broadcast use a_real_cmp, ax_acorr_beyond;
+        ax_lits();
         reveal_with_fuel(ipow, 33);
         assert(ipow(2, 31) == 0x8000_0000);
         if i >= 32 { lemma_pow2_mono(31, (i - 1) as nat); }
@@ -74,12 +95,14 @@ proof fn lemma_pow2_62() ensures ipow(2, 62) == 0x4000_0000_0000_0000int
     }
 //@loop 2
     invariant
-        len == this.view().len(), 1 <= len <= 0x4000_0000,
+        len == this.view().len(), 1 <= len <= 0x4000_0000, x == this.view(), min_periods == mpe,
         last_n <= n <= len - 1,
         len >= 2 ==> n >= 1,
+        last_n == 0 || above(x, last_n as int, mpe),
+        !above(x, n as int, mpe) || n == len - 1,
     decreases n - last_n
 //@at loop 2 first
-    proof { broadcast use a_real_cmp; }
+    proof { broadcast use a_real_cmp, ax_acorr_beyond; ax_lits(); }
 //@end
 
 } // verus!
